@@ -99,3 +99,21 @@ def v2_fixed(vc, fp, declared):
 
 def enc_tlv(k, v):
     return bytes([k]) + be16(len(v)) + v
+
+
+def special_ip6(rng):
+    """address values with structure that random bytes never produce"""
+    v4 = rng.bytes(4)
+    return rng.choice([
+        bytes(10) + b"\xff\xff" + v4,            # ::ffff:a.b.c.d (IPv4-mapped)
+        bytes(12) + v4,                            # ::a.b.c.d (IPv4-compatible)
+        bytes(15) + b"\x01",                      # ::1
+        bytes(16), bytes([255] * 16),
+        b"\x20\x01\x0d\xb8" + bytes(11) + rng.bytes(1),
+        b"\xfe\x80" + bytes(6) + rng.bytes(8),
+        bytes(10) + b"\xff\xff" + bytes([127, 0, 0, 1]),
+    ])
+
+
+def special_ip4(rng):
+    return rng.choice([bytes(4), bytes([255] * 4), bytes([127, 0, 0, 1]), bytes([10, 0, 0, rng.below(256)]), bytes([192, 168, 1, 1])])
